@@ -106,3 +106,47 @@ static inline void tcp_forward_record(struct packet p)
   g_tfwd_last = p; g_tfwd_count++;
 }
 #endif
+#ifndef VF_TCP_READ_H
+#define VF_TCP_READ_H
+/* ---- read_some_impl: scatter copy from the FRONT of the receive queue into the caller's buffer sequence ---- */
+/* the caller's buffer sequence as the scatter loop sees it: g_rd_size = size of the buffer the iterator points at,
+ * g_rd_pre = total size of the buffers before it.  Loop invariants may not call functions, so the sizes are ghost
+ * variables: the first buffer's size comes from the sequence, every further one is ARBITRARY (an over-approximation of any
+ * concrete sequence); assumption: a read offers at most 2^30 bytes of buffer space (total_received is an int) */
+#define RD_SPACE_MAX ((size_t)1 << 30)
+#ifndef VF_MIN
+#define VF_MIN(a, b) ((a) < (b) ? (a) : (b))
+#endif
+extern size_t g_rd_size, g_rd_pre; size_t nondet_size(void);
+static inline void bufseq_begin(bufseq_t b) { g_rd_size = BUFSEQ_SIZE(b, 0); g_rd_pre = 0; }
+static inline void bufseq_advance(bufseq_t b, size_t *k)
+{
+  (void)b; g_rd_pre = g_rd_pre + g_rd_size; __CPROVER_assume(g_rd_pre <= RD_SPACE_MAX);
+  size_t nx = nondet_size(); __CPROVER_assume(nx <= RD_SPACE_MAX); g_rd_size = nx;
+  *k = *k + 1;
+}
+/* the receive queue only holds what incoming_packet appended: payload and error packets (ASSUMED element invariant, a
+ * quantified fact the pointwise window cannot carry across calls; the producer side is asserted in tcp_incoming_append) */
+static inline struct packet *pl_front_recv(struct pktlist *q)
+{
+  struct packet *f = pl_front(q);
+  __CPROVER_assume((f->type == PKT_payload || f->type == PKT_error) && f->bufsz <= PKT_MAX && (f->type == PKT_error ? (f->ec != 0 && f->bufsz == 0) : f->bufsz >= 1));
+  return f;
+}
+/* memcpy(buffer k of the caller's sequence + off, front packet's payload, n) */
+extern size_t g_rd_copies, g_rd_bytes;
+static inline void tcp_copy_out(struct tcp_socket *self, bufseq_t bufs, size_t k, int off, struct packet *src, int n)
+{
+  __CPROVER_assert(n >= 0 && off >= 0 && (size_t)off + (size_t)n <= g_rd_size && k < bufs.n, "[C12.deref] memcpy stays inside the caller's buffer");
+  __CPROVER_assert((size_t)n <= src->bufsz, "[C12.deref] memcpy stays inside the packet's payload");
+  __CPROVER_assert(src == &self->m_incoming_queue.a[self->m_incoming_queue.head], "[C05.inorder] bytes are handed to the reader from the FRONT packet of the receive queue only");
+  __CPROVER_assert((size_t)off + g_rd_pre == g_rd_bytes, "[C05.inorder] bytes are laid out in the caller's buffers contiguously, in the order they are taken from the queue");
+  g_rd_copies = g_rd_copies + 1; g_rd_bytes = g_rd_bytes + (size_t)n;
+}
+/* p.buffer.erase(begin(), begin() + n) on the front packet: the payload shrinks from the front; ghost sum follows */
+static inline void pl_front_consume(struct pktlist *q, struct packet *p, int n)
+{
+  __CPROVER_assert(n >= 0 && (size_t)n <= p->bufsz, "[C12.deref] erase(begin(), begin() + n) within the payload");
+  p->bufsz = p->bufsz - (size_t)n; q->bytes = q->bytes - (int64_t)n;
+}
+#endif
